@@ -44,6 +44,9 @@ if TYPE_CHECKING:
     from .token import Token
 
 
+_NOT_SET = object()
+
+
 class RenderContext:
     """A template render context.
 
@@ -138,11 +141,18 @@ class RenderContext:
 
     def assign(self, key: str, val: Any) -> None:
         """Add or replace the context variable named _key_ with the value _val_."""
+        previous = self.locals.get(key, _NOT_SET)
         self.locals[key] = val
         if (
             self.env.local_namespace_limit is not None
             and self.get_size_of_locals() > self.env.local_namespace_limit
         ):
+            # Don't keep a binding that was rejected. In lax and warn modes the
+            # error is swallowed and rendering continues.
+            if previous is _NOT_SET:
+                del self.locals[key]
+            else:
+                self.locals[key] = previous
             raise LocalNamespaceLimitError("local namespace limit reached", token=None)
 
     def get_size_of_locals(self) -> int:
